@@ -3,7 +3,8 @@ import json, os, subprocess, sys, time
 seeds = [int(x) for x in sys.argv[1].split(",")] if len(sys.argv) > 1 else [1, 2, 3]
 tier = sys.argv[2] if len(sys.argv) > 2 else "quick"
 only = sys.argv[3].split(",") if len(sys.argv) > 3 else None
-m = json.load(open("/verif/MANIFEST.json"))
+ROOT = os.path.dirname(os.path.dirname(os.path.abspath(__file__)))
+m = json.load(open(os.path.join(ROOT, "MANIFEST.json")))
 bad = 0
 for seed in seeds:
     for c in m["checks"]:
@@ -11,7 +12,7 @@ for seed in seeds:
             continue
         t0 = time.time()
         cmd = c["quick_cmd"] if tier == "quick" else c["thorough_cmd"]
-        p = subprocess.run(cmd, shell=True, cwd="/verif", env=dict(os.environ, VERIF_SEED=str(seed)),
+        p = subprocess.run(cmd, shell=True, cwd=ROOT, env=dict(os.environ, VERIF_SEED=str(seed)),
                            capture_output=True, text=True)
         tail = p.stdout.strip().splitlines()[-1] if p.stdout.strip() else ""
         print(f"seed={seed} {c['property_id']} rc={p.returncode} {time.time()-t0:.0f}s {tail}", flush=True)
